@@ -231,10 +231,11 @@ theorem scanPure_tent_le_one (all : List Obj) (s : Sym) : ∀ l : List Obj,
               rw [List.length_eq_zero_iff, List.filter_eq_nil_iff]
               intro x hx
               exact hno x hx
-            have := scanPure_tent_le all s as
-            simp only [List.filter, hp]
-            simp
-            omega
+            have hle := scanPure_tent_le all s as
+            rw [h0] at hle
+            have h1 : ((scanPure all as).filter (isTentOf s)).length = 0 := Nat.le_zero.mp hle
+            rw [List.filter_cons_of_pos hp, List.length_cons, h1]
+            exact Nat.le_refl _
 
 /-- a real definition of the name makes every tentative one redundant -/
 theorem scanPure_tent_none (all : List Obj) (s : Sym) (hreal : all.any (realDefOf s) = true) : ∀ l : List Obj,
